@@ -490,13 +490,13 @@ func (t *tracer) TransitionEnd(tx *am.Transition) {
 		// activated & deactivated
 		if isActive &&
 			(m.lastRec == nil ||
-				m.lastRec.cacheMTimeTracked[hIdx] != mTimeTracked[hIdx]) {
+				!am.IsActiveTick(m.lastRec.cacheMTimeTracked[hIdx])) {
 
 			tickRec.Activated = true
 		}
 		if !isActive &&
-			m.lastRec != nil &&
-			(m.lastRec.cacheMTimeTracked[hIdx] != mTimeTracked[hIdx]) {
+			(m.lastRec == nil ||
+				am.IsActiveTick(m.lastRec.cacheMTimeTracked[hIdx])) {
 
 			tickRec.Deactivated = true
 		}
